@@ -139,14 +139,12 @@ class Transaction:
         _validate_schema_against_table; this closes the same hole on the
         file-level API (#49).
 
-        Only parquet files can be checked (the schema lives in the footer);
-        other formats are queued unchecked, as before.
+        The entry's format tag does not matter here: the read path opens EVERY
+        data file with the parquet reader, whatever its entry says. A file
+        tagged ORC or AVRO used to be queued unchecked - a parquet file with a
+        divergent schema (or a file that is not parquet at all) was accepted
+        that way and every later scan failed.
         """
-        fmt = data_file.file_format
-        fmt_name = fmt.value if isinstance(fmt, FileFormat) else str(fmt)
-        if fmt_name.lower() != FileFormat.PARQUET.value:
-            return
-
         import pyarrow.parquet as pq
 
         dfm = self.file_manager.data_file_manager
